@@ -177,9 +177,18 @@ func c04Opts(r *fw.Run, p *fw.Program) {
 			}
 			fg, ok1 := c04ConstBool(fields["FillGaps"], false)
 			ir, ok2 := c04ConstBool(fields["IsRoot"], false)
-			if !ok1 || !ok2 {
-				ru.Undecided(key, pos, "FillGaps / IsRoot are not constants")
-				continue
+			// a value that is not a compile-time constant (inherited from the caller's options, derived
+			// from a user/display option ...) is false on some call: decided below as a violation
+			gs := fw.NewGxSym(fn)
+			dep := func(v ssa.Value) string {
+				if v == nil {
+					return ""
+				}
+				r := gs.Val(v)
+				if r.P != nil {
+					return r.P.String()
+				}
+				return r.Loc
 			}
 			recv := c04RecvD(p, fn)
 			if top := fw.Top(fn); top != fn && c04RecvD(p, top) != nil {
@@ -209,12 +218,21 @@ func c04Opts(r *fw.Run, p *fw.Program) {
 			if openEnded {
 				failFG = "FillGaps is true for an open-ended decode in the parent's buffer: the child's trailing gap overlaps the fields the parent decodes next"
 			}
-			ru.Check(fg == !openEnded, key+":FillGaps", pos, fmt.Sprintf("%s decode over %s: FillGaps=%v", kind, buf, fg), failFG)
+			if !ok1 {
+				want := map[bool]string{true: "false", false: "true"}[openEnded]
+				ru.Fail(key+":FillGaps", pos, fmt.Sprintf("FillGaps of a %s decode over %s is not the constant %s but depends on %s: whenever that is %s the undecoded bits of the region are reported nowhere (or the child's gaps overlap the parent's fields)", kind, buf, want, dep(fields["FillGaps"]), map[bool]string{true: "true", false: "false"}[openEnded]))
+			} else {
+				ru.Check(fg == !openEnded, key+":FillGaps", pos, fmt.Sprintf("%s decode over %s: FillGaps=%v", kind, buf, fg), failFG)
+			}
 			failIR := "IsRoot is false for a decode over a separate buffer: its leaf ranges (other coordinates) are counted as covering the parent's buffer and hide holes"
 			if sameBuf {
 				failIR = "IsRoot is true for a decode inside the parent's buffer: the parent's gap computation skips its fields and adds gaps over them"
 			}
-			ru.Check(ir == !sameBuf, key+":IsRoot", pos, fmt.Sprintf("decode over %s: IsRoot=%v", buf, ir), failIR)
+			if !ok2 {
+				ru.Fail(key+":IsRoot", pos, fmt.Sprintf("IsRoot of a decode over %s is not a constant but depends on %s: ", buf, dep(fields["IsRoot"]))+failIR)
+			} else {
+				ru.Check(ir == !sameBuf, key+":IsRoot", pos, fmt.Sprintf("decode over %s: IsRoot=%v", buf, ir), failIR)
+			}
 		}
 	}
 }
@@ -822,8 +840,27 @@ func c04LeafFilterWrapper(p *fw.Program, g *ssa.Function) *c04Wrapper {
 	if g == nil || len(g.Params) != 1 || len(g.Blocks) == 0 {
 		return nil
 	}
-	cls := closuresReturnedBy(g)
-	if len(cls) != 1 {
+	// the one closure g returns (possibly converted to a named func type such as WalkFn)
+	var cls []*ssa.Function
+	okRet := true
+	fw.EachInstr(g, func(ins ssa.Instruction) {
+		ret, isRet := ins.(*ssa.Return)
+		if !isRet {
+			return
+		}
+		if len(ret.Results) != 1 {
+			okRet = false
+			return
+		}
+		if m, ok := c04Strip(ret.Results[0]).(*ssa.MakeClosure); ok {
+			if f, ok := m.Fn.(*ssa.Function); ok {
+				cls = append(cls, f)
+				return
+			}
+		}
+		okRet = false
+	})
+	if !okRet || len(cls) != 1 {
 		return nil
 	}
 	w := cls[0]
@@ -951,13 +988,40 @@ func c04Leafs(r *fw.Run, p *fw.Program) {
 	}
 	pos := p.Rel(gc.Pos())
 	ru.Check(gc.Call.Args[0] == ssa.Value(fn.Params[1]), "FillGaps:gaps-call:total", pos, "total range is FillGaps' own range parameter", "ranges.Gaps is not called with FillGaps' range parameter as total")
-	// ---- the collected list
-	cell, _ := c04LoadOf(gc.Call.Args[1]).(*ssa.Alloc)
+	// ---- the collected list: built in FillGaps itself, or by a helper that is handed d (or d.Value)
+	// and returns the list
+	cfn, ls := fn, s
+	var cend ssa.Instruction = gc
+	listVal := gc.Call.Args[1]
+	isRootVal := func(v ssa.Value) bool { return c04FieldLoad(v, d, "Value") }
+	if hc, ok := listVal.(*ssa.Call); ok && !hc.Common().IsInvoke() && hc.Common().StaticCallee() != nil && fw.InFq(hc.Common().StaticCallee()) && len(hc.Call.Args) == 1 && len(hc.Common().StaticCallee().Blocks) > 0 {
+		h := hc.Common().StaticCallee()
+		var rets []*ssa.Return
+		fw.EachInstr(h, func(ins ssa.Instruction) {
+			if rt, ok := ins.(*ssa.Return); ok {
+				rets = append(rets, rt)
+			}
+		})
+		arg := hc.Call.Args[0]
+		byD, byV := arg == ssa.Value(d), c04FieldLoad(arg, d, "Value")
+		if len(rets) == 1 && len(rets[0].Results) == 1 && len(h.Params) == 1 && (byD || byV) {
+			cfn, ls, cend, listVal = h, fw.NewGxSym(h), rets[0], rets[0].Results[0]
+			hp := h.Params[0]
+			if byD {
+				ls.Name(hp, "d")
+				isRootVal = func(v ssa.Value) bool { return c04FieldLoad(v, hp, "Value") }
+			} else {
+				ls.Name(hp, "d.Value")
+				isRootVal = func(v ssa.Value) bool { return v == ssa.Value(hp) }
+			}
+		}
+	}
+	cell, _ := c04LoadOf(listVal).(*ssa.Alloc)
 	if cell == nil {
-		ru.Undecided("FillGaps:collect", pos, "the range list is not held in a local variable cell")
+		ru.Undecided("FillGaps:collect", pos, "the range list is not held in a local variable cell (of FillGaps or of a helper called with d / d.Value)")
 		return
 	}
-	s.Name(cell, "S")
+	ls.Name(cell, "S")
 	// stores to the cell in FillGaps itself: only make([]Range, n)
 	var mk *ssa.MakeSlice
 	for _, rf := range *cell.Referrers() {
@@ -978,7 +1042,7 @@ func c04Leafs(r *fw.Run, p *fw.Program) {
 		wr      *c04Wrapper
 	}
 	var walks []walkInfo
-	for _, c := range fw.CallsIn(fn) {
+	for _, c := range fw.CallsIn(cfn) {
 		cl, ok := c.(*ssa.Call)
 		if !ok || cl.Common().StaticCallee() == nil || len(cl.Call.Args) != 2 || !c04IsPtrTo(cl.Call.Args[0].Type(), valueT) {
 			continue
@@ -992,7 +1056,7 @@ func c04Leafs(r *fw.Run, p *fw.Program) {
 		wpos := p.Rel(cl.Pos())
 		ru.Check(c04IsRootLimitedWalker(p, callee), key+":root-limited", wpos, fw.ShortFn(callee)+" stops at sub-buffer roots",
 			fw.ShortFn(callee)+" is not a root-limited walk (WalkOpts{OneRoot: true}): leaf ranges of other buffers are mixed into this buffer's gap computation")
-		ru.Check(c04FieldLoad(cl.Call.Args[0], d, "Value"), key+":receiver", wpos, "walks d.Value", "the walk does not start at d.Value")
+		ru.Check(isRootVal(cl.Call.Args[0]), key+":receiver", wpos, "walks d.Value", "the walk does not start at d.Value")
 		cb := c04Strip(cl.Call.Args[1])
 		switch x := cb.(type) {
 		case *ssa.MakeClosure:
@@ -1127,7 +1191,7 @@ func c04Leafs(r *fw.Run, p *fw.Program) {
 							for _, rf := range *ic.Referrers() {
 								if st, ok := rf.(*ssa.Store); ok && st.Addr == ssa.Value(ic) {
 									nInit++
-									c, isC := s.Int(st.Val).IsConst()
+									c, isC := ls.Int(st.Val).IsConst()
 									okInit = isC && c == 0
 								}
 							}
@@ -1160,8 +1224,8 @@ func c04Leafs(r *fw.Run, p *fw.Program) {
 	// sizing: make([]Range, n) with n counted by a walk of the same kind; or an empty list that is
 	// appended to
 	if mk != nil && appendStyle {
-		c, isC := s.Int(mk.Len).IsConst()
-		ru.Check(isC && c == 0, "FillGaps:collect:size", p.Rel(mk.Pos()), "list starts empty and is appended to", "the range list is appended to but does not start empty (length "+s.Int(mk.Len).String()+"): the extra zero ranges are harmless only by accident, a non-zero start pads the list")
+		c, isC := ls.Int(mk.Len).IsConst()
+		ru.Check(isC && c == 0, "FillGaps:collect:size", p.Rel(mk.Pos()), "list starts empty and is appended to", "the range list is appended to but does not start empty (length "+ls.Int(mk.Len).String()+"): the extra zero ranges are harmless only by accident, a non-zero start pads the list")
 	} else if mk != nil {
 		ncell, _ := c04LoadOf(mk.Len).(*ssa.Alloc)
 		okCount := false
@@ -1186,7 +1250,7 @@ func c04Leafs(r *fw.Run, p *fw.Program) {
 				})
 			}
 		}
-		ru.Check(okCount && mk.Len == mk.Cap || okCount && s.Int(mk.Len).Equal(s.Int(mk.Cap)), "FillGaps:collect:size", p.Rel(mk.Pos()), "list is sized by a count of the same leaf walk", "the range list is not sized by counting (unconditionally) the same non-compound values: it is indexed out of range or padded")
+		ru.Check(okCount && mk.Len == mk.Cap || okCount && ls.Int(mk.Len).Equal(ls.Int(mk.Cap)), "FillGaps:collect:size", p.Rel(mk.Pos()), "list is sized by a count of the same leaf walk", "the range list is not sized by counting (unconditionally) the same non-compound values: it is indexed out of range or padded")
 	}
 	// order: count walk < make < fill walk < ranges.Gaps
 	{
@@ -1207,7 +1271,7 @@ func c04Leafs(r *fw.Run, p *fw.Program) {
 		}
 		okOrder := true
 		for _, wi := range walks {
-			if !precedes(wi.call, gc) {
+			if !precedes(wi.call, cend) {
 				okOrder = false
 			}
 			if mk != nil && wi.cbMC != nil {
